@@ -151,6 +151,16 @@ def solve(st, assumptions, bad, timeout_s=60, seed=0, want_model=True, label='',
         try:
             t0 = time.time()
             cb = Canon().boolean(to_z3(bad))
+            if not z3.is_false(cb):
+                cx = Canon(reduce_sqrt=True)
+                cb2 = cx.boolean(to_z3(bad))
+                if z3.is_false(cb2) and cx.sqrt_side:
+                    # the reduction fsqrt(x)^2 -> x is valid where x >= 0: show that no argument can be negative
+                    side = z3.Or(*[a < 0 for a in cx.sqrt_side.values()])
+                    cache = {}
+                    acons = [abstract_nl(c, cache) for c in cons[:-1] + [side]]
+                    rs, _, dts, _ = _solve(acons + nl_lemmas(cache), 20000, seed)
+                    if rs == z3.unsat: cb = cb2
             st.z3_s += time.time() - t0
             if z3.is_false(cb):
                 st.unsat += 1; st.stage0 += 1
@@ -318,8 +328,9 @@ def snap_model(assumptions, bad, xs, timeout_s=10, seed=0, denom=8, lim=4000):
 # a * (1/b): the two differ only where b = 0, which z3 leaves unspecified anyway (zero denominators
 # are the subject of separate queries).
 class Canon:
-    def __init__(s, max_terms=20000, distribute=True):
+    def __init__(s, max_terms=20000, distribute=True, reduce_sqrt=False):
         s.pc, s.bc, s.max_terms, s.distribute = {}, {}, max_terms, distribute
+        s.reduce_sqrt, s.sqrt_side = reduce_sqrt, {}
         s.atoms = {}
 
     def atom(s, e):
@@ -353,8 +364,35 @@ class Canon:
         r = s.pc.get(k)
         if r is not None: return r
         r = s._poly(e)
+        if s.reduce_sqrt: r = s._reduce_sqrt(r)
         s.pc[k] = r
         return r
+
+    def _reduce_sqrt(s, p):
+        """fsqrt(x)^2 -> x (valid where x >= 0: the arguments are collected in sqrt_side and must be shown non-negative)"""
+        out = None
+        for m, c in p.items():
+            hit = [(k, pw) for k, pw in m if pw >= 2 and z3.is_app(s.atoms[k]) and s.atoms[k].decl().name() == 'fsqrt']
+            if not hit:
+                if out is not None: out = s._add(out, {m: c})
+                continue
+            if out is None:
+                out = {mm: cc for mm, cc in p.items() if mm != m and not any(pw >= 2 and z3.is_app(s.atoms[k]) and s.atoms[k].decl().name() == 'fsqrt' for k, pw in mm)}
+                # (re-add below every monomial with a hit, reduced)
+                rest = [(mm, cc) for mm, cc in p.items() if any(pw >= 2 and z3.is_app(s.atoms[k]) and s.atoms[k].decl().name() == 'fsqrt' for k, pw in mm)]
+                for mm, cc in rest:
+                    term = {tuple((k, pw) for k, pw in mm if not (pw >= 2 and z3.is_app(s.atoms[k]) and s.atoms[k].decl().name() == 'fsqrt')): cc}
+                    for k, pw in mm:
+                        a = s.atoms[k]
+                        if pw >= 2 and z3.is_app(a) and a.decl().name() == 'fsqrt':
+                            arg = a.children()[0]
+                            s.sqrt_side[arg.get_id()] = arg
+                            ap = s.poly(arg)
+                            for _ in range(pw // 2): term = s._mul(term, ap)
+                            if pw % 2: term = s._mul(term, {((k, 1),): F(1)})
+                    out = s._add(out, term)
+                return out
+        return p if out is None else out
 
     def _poly(s, e):
         if z3.is_rational_value(e): return {(): F(e.numerator_as_long(), e.denominator_as_long())} if e.numerator_as_long() != 0 else {}
